@@ -810,3 +810,129 @@ def renest_lifted(tree: ast.Module, relpath: str) -> List[Tuple[str, str]]:
         _remove_unreferenced(tree, [new_defs[g][0] for _, g in done])
         ast.fix_missing_locations(tree)
     return done
+
+
+# ------------------------------------------------------------------------------------------ new members, package-wide
+def inline_new_members(trees: Dict[str, ast.Module]) -> List[Tuple[str, str, int]]:
+    """Package-wide, expression-level inlining of NEW single-expression members: a `@property` (`E.name`), an instance method
+    (`E.name(args)`) or a module-level function used from another module (`name(args)` / `mod.name(args)`) that the pinned tree does
+    not have, whose name is borne by exactly one definition in the package and by no field, and whose body denotes one expression
+    (`_tail_expr`). "This comparison got a name on the class it is about" is the most common clean-up of the guard chains the rules
+    read; the rules then meet the comparison again. Definitions left without a reference are dropped. -> [(relpath of use, name, line)]"""
+    base = baseline()
+    if not base:
+        return []
+    from collections import Counter
+
+    count: Counter = Counter()
+    fields = set()
+    new = {}
+    for rel, t in trees.items():
+        for qn, d, cls, outer in qualnames(t):
+            count[d.name] += 1
+            if (rel, qn) not in base and outer is None:
+                new[d.name] = (rel, qn, d, cls)
+        for n in ast.walk(t):
+            if isinstance(n, ast.ClassDef):
+                for s in n.body:
+                    if isinstance(s, ast.AnnAssign) and isinstance(s.target, ast.Name):
+                        fields.add(s.target.id)
+                    elif isinstance(s, ast.Assign):
+                        fields |= {x.id for x in s.targets if isinstance(x, ast.Name)}
+            elif isinstance(n, ast.Attribute) and isinstance(n.ctx, ast.Store):
+                fields.add(n.attr)
+    props, methods, funcs = {}, {}, {}
+    for name, (rel, qn, d, cls) in new.items():
+        if count[name] != 1 or name in fields or name.startswith("__"):
+            continue
+        decs = [ast.unparse(x) for x in d.decorator_list]
+        if cls is not None and decs == ["property"]:
+            a = d.args
+            if len(a.args) == 1 and not (a.vararg or a.kwarg or a.kwonlyargs or a.posonlyargs):
+                props[name] = {"params": [a.args[0].arg], "bound": True, "defaults": {}, "kwonly": [], "kwdefaults": {}, "def": d, "rel": rel}
+            continue
+        c = _candidate(d, is_method=cls is not None)
+        if c is None:
+            continue
+        c["rel"] = rel
+        if cls is not None and c["bound"] and c["params"][0] == "self":
+            methods[name] = c
+        elif cls is None:
+            funcs[name] = c
+    if not (props or methods or funcs):
+        return []
+    log: List[Tuple[str, str, int]] = []
+    used = set()
+
+    def simple(e: ast.AST) -> bool:
+        return not any(isinstance(x, (ast.Call, ast.Lambda, ast.Await, ast.NamedExpr)) for x in ast.walk(e))
+
+    def uses(c, pname: str) -> int:
+        return sum(1 for x in ast.walk(c["def"]) if isinstance(x, ast.Name) and x.id == pname)
+
+    class T(ast.NodeTransformer):
+        def __init__(self, rel):
+            self.rel = rel
+            self.inside = []
+
+        def visit_FunctionDef(self, n):
+            self.inside.append(n)
+            self.generic_visit(n)
+            self.inside.pop()
+            return n
+
+        def _own(self, c) -> bool:
+            return any(x is c["def"] for x in self.inside)
+
+        def visit_Attribute(self, n):
+            self.generic_visit(n)
+            c = props.get(n.attr)
+            if c is not None and isinstance(n.ctx, ast.Load) and not self._own(c) and (simple(n.value) or uses(c, c["params"][0]) <= 1):
+                e = _tail_expr(list(c["def"].body), {c["params"][0]: n.value})
+                if e is not None and _size(e) <= MAX_NODES:
+                    used.add(n.attr)
+                    log.append((self.rel, n.attr, getattr(n, "lineno", 0)))
+                    return ast.copy_location(e, n)
+            return n
+
+        def visit_Call(self, n):
+            self.generic_visit(n)
+            f = n.func
+            c, recv = None, None
+            if isinstance(f, ast.Attribute) and f.attr in methods:
+                c, recv = methods[f.attr], f.value
+                if not (simple(recv) or uses(c, "self") <= 1):
+                    c = None
+            elif isinstance(f, ast.Attribute) and f.attr in funcs and isinstance(f.value, ast.Name) and funcs[f.attr]["rel"] != self.rel:
+                c = funcs[f.attr]
+            elif isinstance(f, ast.Name) and f.id in funcs and funcs[f.id]["rel"] != self.rel:
+                c = funcs[f.id]
+            if c is None or self._own(c):
+                return n
+            if not all(simple(a) or uses(c, p) <= 1 for p, a in zip(c["params"][1 if c["bound"] else 0:], n.args)):
+                return n
+            e = _instantiate(c, n, recv)
+            if e is None:
+                return n
+            nm = f.attr if isinstance(f, ast.Attribute) else f.id
+            used.add(nm)
+            log.append((self.rel, nm, getattr(n, "lineno", 0)))
+            return ast.copy_location(e, n)
+
+    for rel, t in trees.items():
+        T(rel).visit(t)
+    if used:
+        for nm in used:
+            c = props.get(nm) or methods.get(nm) or funcs.get(nm)
+            still = 0
+            for rel, t in trees.items():
+                for x in ast.walk(t):
+                    if (isinstance(x, ast.Attribute) and x.attr == nm) or (isinstance(x, ast.Name) and x.id == nm):
+                        still += 1
+            inner = sum(1 for x in ast.walk(c["def"]) if (isinstance(x, ast.Attribute) and x.attr == nm) or (isinstance(x, ast.Name) and x.id == nm))
+            if still - inner == 0:
+                _remove_unreferenced(trees[c["rel"]], [c["def"]])
+            # an import of the name elsewhere keeps it "referenced" through ast.alias only, which is not counted above
+        for t in trees.values():
+            ast.fix_missing_locations(t)
+    return log
